@@ -11,7 +11,7 @@ crate::c13_ghost_support!();
 
 #[kani::proof]
 #[kani::stub(zeroize::optimization_barrier, noop_barrier)]
-#[kani::unwind(12)]
+#[kani::unwind(82)]
 fn c13_confirmation_tag_bounded_4() {
     let p = GhostProvider::new();
     let key = any_bytes::<4>();
@@ -29,7 +29,7 @@ fn c13_confirmation_tag_bounded_4() {
 
 #[kani::proof]
 #[kani::stub(zeroize::optimization_barrier, noop_barrier)]
-#[kani::unwind(12)]
+#[kani::unwind(82)]
 fn c13_confirmation_tag_provider_error_bounded_4() {
     let p = GhostProvider::failing_at(0);
     let key = any_bytes::<4>();
@@ -42,7 +42,7 @@ fn c13_confirmation_tag_provider_error_bounded_4() {
 // matches() recomputes the same MAC and accepts exactly the recomputed value
 #[kani::proof]
 #[kani::stub(zeroize::optimization_barrier, noop_barrier)]
-#[kani::unwind(12)]
+#[kani::unwind(82)]
 fn c13_confirmation_tag_matches_bounded_4() {
     let p = GhostProvider::new();
     let key = any_bytes::<4>();
